@@ -18,7 +18,9 @@ from traits.api import HasTraits, List, Dict, Set, Int, Float, Str, Union, Trait
 ID = "C04"
 LEVEL = "exploration"
 RULE = ("Hypothesis histories (<=20 ops) over all list/dict/set mutators and whole-value assignment on 11 container "
-        "traits (bounded, nested, Union items); ~70% of generated items are valid for the inner trait; non-trivial = "
+        "traits (bounded, nested, Union items), incl. assignment of a detached deep copy filled without validation and of "
+        "the container object of a dropped twin instance; ~70% of generated items are valid for the inner trait, the rest "
+        "convertible, invalid, or EQUAL to a member but of another type; non-trivial = "
         "history containing an op with an invalid or convertible item, or a length-changing op at a length bound; "
         "distinct by digest")
 ASSUMPTIONS = ["when the underlying builtin operation is itself illegal (bad index, missing key, wrong extended-slice size) "
